@@ -625,6 +625,49 @@ func checkQuoted(open string, pairs []replPair, closeS string) (bool, string) {
 	return true, fmt.Sprintf("%q · replaceAll(input, %v) · %q: lexer returns to Unquoted with the word equal to the input", open, pairs, closeS)
 }
 
+// emptyInputEdges: the CFG edges of fn on which the input string is known to be empty (`s == ""`, `len(s) == 0`,
+// `len(s) < 1` true edges and the false edges of their negations).
+func emptyInputEdges(fn *ssa.Function, input *ssa.Parameter) map[sx.Edge]bool {
+	out := map[sx.Edge]bool{}
+	isLen := func(v ssa.Value) bool {
+		c, ok := sx.Unspill(v).(*ssa.Call)
+		return ok && isBuiltin(c, "len") && sx.Unspill(c.Call.Args[0]) == ssa.Value(input)
+	}
+	sx.Instrs(fn, func(in ssa.Instruction) {
+		b, ok := in.(*ssa.BinOp)
+		if !ok || b.Referrers() == nil {
+			return
+		}
+		trueIsEmpty, falseIsEmpty := false, false
+		if sx.Unspill(b.X) == ssa.Value(input) {
+			if k, isC := sx.ConstString(b.Y); isC && k == "" {
+				trueIsEmpty, falseIsEmpty = b.Op == token.EQL, b.Op == token.NEQ
+			}
+		}
+		if isLen(b.X) {
+			if k, isC := sx.ConstInt(b.Y); isC {
+				switch {
+				case k == 0 && (b.Op == token.EQL || b.Op == token.LEQ), k == 1 && b.Op == token.LSS:
+					trueIsEmpty = true
+				case k == 0 && (b.Op == token.NEQ || b.Op == token.GTR), k == 1 && b.Op == token.GEQ:
+					falseIsEmpty = true
+				}
+			}
+		}
+		for _, u := range *b.Referrers() {
+			if iff, ok := u.(*ssa.If); ok {
+				if trueIsEmpty {
+					out[sx.Edge{From: iff.Block(), Idx: 0}] = true
+				}
+				if falseIsEmpty {
+					out[sx.Edge{From: iff.Block(), Idx: 1}] = true
+				}
+			}
+		}
+	})
+	return out
+}
+
 // startsWithFacts: the CFG edges of fn on which the input is known to start with pre — strings.HasPrefix true edges,
 // strings.CutPrefix found edges, and (for a two-byte prefix) the pair of byte tests s[0]==pre[0], s[1]==pre[1].
 func startsWithFacts(fn *ssa.Function, input *ssa.Parameter, pre string) (whole map[sx.Edge]bool, perByte []map[sx.Edge]bool) {
@@ -1042,6 +1085,12 @@ func runC16(p *core.Prog, r *core.Report) {
 	var refPairs []replPair
 	refOK := false
 	nRet := 0
+	type emptyCase struct {
+		c   string
+		k   string
+		ret *ssa.Return
+	}
+	var emptyCases []emptyCase
 	retIdx := func(fn *ssa.Function, ret *ssa.Return) int {
 		for i, r2 := range sx.Returns(fn) {
 			if r2 == ret {
@@ -1057,6 +1106,24 @@ func runC16(p *core.Prog, r *core.Report) {
 			nRet++
 			ctx := &sevalCtx{p: p, input: se.Params[0], choice: choice, path: rc.path}
 			expr := ctx.eval(ret.Results[0], 0)
+			// a constant returned where the input is known to be empty (`if s == "" { return "''" }`): judged after the
+			// general form, whose value for the empty input it must spell
+			if fl := expr.flat(); rc.path != nil && (len(fl) == 0 || (len(fl) == 1 && fl[0].kind == "const")) {
+				k := ""
+				if len(fl) == 1 {
+					k = fl[0].s
+				}
+				isEmpty := false
+				for e := range emptyInputEdges(se, se.Params[0]) {
+					if rc.edges[e] {
+						isEmpty = true
+					}
+				}
+				if isEmpty {
+					emptyCases = append(emptyCases, emptyCase{c, k, ret})
+					continue
+				}
+			}
 			open, mid, closeS, why := quotedFormOf(expr.flat())
 			if why == "" && mid.sub.kind != "input" {
 				why = "the string being escaped is " + mid.sub.String() + ", not the input"
@@ -1079,8 +1146,12 @@ func runC16(p *core.Prog, r *core.Report) {
 			}
 		}
 	}
-	if nRet == 0 {
-		r.Fail("C16-R1", "ShellEscape returns", p.FuncPos(se), "no return found")
+	for _, ec := range emptyCases {
+		ok := refOK && ec.k == refOpen+refClose
+		r.Check(ok, "C16-R1", ec.c+": constant for the empty input", p.Pos(ec.ret.Pos()), fmt.Sprintf("%q is what the general form yields for the empty string", ec.k), fmt.Sprintf("on the path where the input is empty the constant %q is returned, the general form yields %q (or the general form was not verified)", ec.k, refOpen+refClose))
+	}
+	if nRet == 0 || nRet == len(emptyCases) {
+		r.Fail("C16-R1", "ShellEscape returns", p.FuncPos(se), "no return with the general form found")
 	}
 	// R3
 	input := st.Params[0]
